@@ -27,7 +27,7 @@ RULE = (
     "history); non-trivial = at least one section was replayed from the cache and one was re-executed after "
     "an invalidation."
 )
-RULE += " added since: six d0 signatures (keyword-only after *args included), recompilation under the same URI honouring the backend's starttime, inherited cached sections, invalidate postconditions, exact kwargs handed to the backend, cached sections that raise. cached sections of INCLUDED templates (same-named defs in includer and included; include_error_handler unset / returning False / True; invalidation per template). the included template's cached sections also reached through a <%namespace> of the including one."
+RULE += " added since: six d0 signatures (keyword-only after *args included), recompilation under the same URI honouring the backend's starttime, inherited cached sections, invalidate postconditions, exact kwargs handed to the backend, cached sections that raise. cached sections of INCLUDED templates (same-named defs in includer and included; include_error_handler unset / returning False / True; invalidation per template). the included template's cached sections also reached through a <%namespace> of the including one. two cached anonymous blocks whose line/column digits read alike, in different callables."
 ASSUMPTIONS = [
     "the recording backend stores per (Cache.id, key), as Beaker does with namespaces",
     "no expiry is exercised: timeouts are large (Beaker/dogpile use real time)",
@@ -35,6 +35,7 @@ ASSUMPTIONS = [
 ]
 MIN_NONTRIVIAL = 100
 REQUIRED_COUNTERS = ["renders", "inherited_cached_renders", "recompiles_under_the_same_uri", "cache_hits_predicted", "reexecutions_after_invalidate", "backend_calls_logged", "kwargs_checked", "disabled_renders", "included_cached_renders"]
+REQUIRED_COUNTERS += ["anonymous_position_templates"]
 
 _st = {"counter": 0}
 
@@ -502,6 +503,8 @@ def gen_cases(tier, seed):
         yield {"kind": "raising", "backend": b}
     for b in ("rec", "beaker-memory", "beaker-file"):
         yield {"kind": "include", "backend": b}
+    for b in ("rec", "beaker-memory"):
+        yield {"kind": "anon-positions", "backend": b}
     n = 4000 if tier == "quick" else 40000
     per = 10
     for i in range(n // per):
@@ -642,6 +645,53 @@ def run_include(case, res):
         res.nontrivial("c17-include", backend, handler)
 
 
+def run_anonymous_positions(case, res):
+    """cached anonymous blocks are keyed by their internal name, which is made from the block's line and column:
+    two of them in different callables of one template at positions whose digits read alike (line 1 col 18 /
+    line 11 col 8, ...) are still two sections, each executed once and replayed with its own output"""
+    T = _st["Template"]
+    backend = case["backend"]
+    for l1, c1, l2, c2 in ((1, 18, 11, 8), (2, 31, 23, 1), (1, 21, 12, 1), (3, 18, 31, 8), (1, 110, 11, 10), (1, 18, 1, 90), (4, 20, 5, 20)):
+        _st["counter"] += 1
+        uid = "%d_%d" % (os.getpid(), _st["counter"])
+        impl, base_args, dog = make_backend(backend, uid + "_anon")
+        Rec.store.clear()
+        reg = ' cache_region="%s"' % dog if dog else ""
+        line_a = '<%def name="a()">' + "x" * (c1 - 18) + '<%block cached="True"' + reg + ">from-a${tick('a')}</%block></%def>"
+        if l2 == l1:
+            # both on one line: the body's block stands further right
+            pad = c2 - 1 - len(line_a)
+            lines = [""] * (l1 - 1) + [line_a + "y" * pad + '<%block cached="True"' + reg + ">from-body${tick('b')}</%block>${a()}"]
+        else:
+            lines = [""] * (l1 - 1) + [line_a] + [""] * (l2 - l1 - 1) + ["y" * (c2 - 1) + '<%block cached="True"' + reg + ">from-body${tick('b')}</%block>${a()}"]
+        text = "\n".join(lines)
+        ticks = {}
+
+        def tick(n):
+            ticks[n] = ticks.get(n, 0) + 1
+            return ticks[n]
+
+        res.evaluations += 1
+        res.count("anonymous_position_templates")
+        what = "backend=%s, cached anonymous blocks at line %d col %d (in a def) and line %d col %d (in the body)" % (backend, l1, c1, l2, c2)
+        try:
+            t = T(text, cache_impl=impl, cache_args=dict(base_args), uri="/anon_%s.html" % uid)
+            names = sorted(n for n in dir(t.module) if n.startswith("render___M_anon"))
+            outs = ["".join(t.render_unicode(tick=tick).split()) for _ in range(2)]
+        except Exception as e:
+            res.violate("anonymous-blocks-collide", "%s: %s: %s" % (what, type(e).__name__, e))
+            continue
+        exp = "x" * (c1 - 18) * 0 + "y" * (max(0, c2 - 1 - len(line_a)) if l2 == l1 else c2 - 1) + "from-body1from-a1"
+        if l2 == l1:
+            exp = "y" * (c2 - 1 - len(line_a)) + "from-body1" + "x" * (c1 - 18) + "from-a1"
+        else:
+            exp = "y" * (c2 - 1) + "from-body1" + "x" * (c1 - 18) + "from-a1"
+        if outs != [exp, exp] or ticks != {"a": 1, "b": 1}:
+            res.violate("anonymous-blocks-collide", "%s: two renders gave %r, expected twice %r; bodies executed %r; block callables %r" % (what, outs, exp, ticks, names),
+                        witness="two cached anonymous blocks whose line/column digits read alike")
+        res.nontrivial("anon-pos", backend, l1, c1, l2, c2)
+
+
 def run_raising(case, res):
     """a cached section whose body raises: the exception propagates, nothing is stored for its key, and the body runs
     again on the next render"""
@@ -708,6 +758,9 @@ def run_case(case):
         return res
     if case["kind"] == "include":
         run_include(case, res)
+        return res
+    if case["kind"] == "anon-positions":
+        run_anonymous_positions(case, res)
         return res
     if case["kind"] == "batch":
         for j in range(case["n"]):
